@@ -95,9 +95,15 @@ A_SORTED = ("sortedcontainers.SortedSet (membership + ascending order, copy / re
             "itertools.zip_longest and map are modelled as assumed library contracts (contracts/fog_c.py)")
 A_WFNODES = ("if_branch_valid / get_from_proof are decided for arbitrary lists of *well-formed* node bodies; bodies "
              "altered into malformed encodings are covered by the bounded tier only")
+A_PROOFSET = ("get_proof's tuple of unknown length is modelled by two ghost sets (hashes of its members, members in the "
+              "datatype view) that `tuple + (node,)` extends; lemma proof_composition assumes that a hash is in the set "
+              "only if some offered node has it (the meaning of the ghost set), and takes the contract clauses closed "
+              "over their ghost constants as hypotheses (each is proved for an arbitrary value of its ghost)")
+A_CACHE = ("TrieFrontierCache: the cached node body is an opaque Python value (only its identity as a value matters); "
+           "dictionary values are pairs (node, segment) modelled as a z3 datatype")
 _EXTRA = {
-    "C01": [A_SLOTS], "C02": [A_SLOTS], "C03": [A_SLOTS, A_WFNODES], "C04": [A_SLOTS], "C05": [A_SLOTS],
-    "C06": [A_SLOTS], "C07": [A_SLOTS], "C08": [A_SLOTS], "C09": [A_SLOTS, A_SORTED], "C10": [A_SLOTS],
+    "C01": [A_SLOTS], "C02": [A_SLOTS], "C03": [A_SLOTS, A_WFNODES, A_PROOFSET], "C04": [A_SLOTS], "C05": [A_SLOTS],
+    "C06": [A_SLOTS], "C07": [A_SLOTS], "C08": [A_SLOTS], "C09": [A_SLOTS, A_SORTED, A_CACHE], "C10": [A_SLOTS],
     "C11": [A_SORTED], "C13": [A_WFNODES], "C14": [A_BITS], "C15": [A_BITS],
 }
 for _pid in PROPERTY_TEXT:
